@@ -188,6 +188,21 @@ class World:
             p = [next(it)[0] for _ in range(len(ids1))]
             if sorted(p) != sorted(ids1):
               sh = False
+      # two scans of the same view alive at once must not disturb each other
+      if ids1:
+        pairs = list(zip(fd.clients(), fd.clients()))
+        if [pr[0][0] for pr in pairs] != [c for c, _ in cl] or [pr[1][0] for pr in pairs] != [c for c, _ in cl]:
+          deterministic = False
+          notes.append('interleaved clients() scans')
+        it = fd.shuffled_clients(buffer_size=2, seed=11)
+        ref_it = fd.shuffled_clients(buffer_size=2, seed=11)
+        ref = [next(ref_it)[0] for _ in range(2 * len(ids1))]
+        half = [next(it)[0] for _ in range(max(1, len(ids1) // 2))]
+        list(fd.clients())
+        rest = [next(it)[0] for _ in range(2 * len(ids1) - len(half))]
+        if half + rest != ref:
+          sh = False
+          notes.append('shuffled pass disturbed by another scan')
       return {'ids': idset, 'tags': tags or [], 'has_rows': has_rows, 'paths_agree': paths, 'keyerror_outside': ke,
               'deterministic': deterministic, 'shuffled_once': sh, 'sizes_ok': bool(sizes_ok), 'notes': notes[:4]}
     except Exception as ex:  # pylint: disable=broad-except
@@ -337,7 +352,12 @@ def run(ctx):
 
   # binding control: an id smuggled into an observation must be rejected
   import copy
-  good = next(t for t, v in zip(trs, verdicts) if v.ok and any('obs' in e for e in t['events']))
+  good = next((t for t, v in zip(trs, verdicts) if v.ok and any('obs' in e for e in t['events'])), None)
+  if good is None:
+    ctx.controls.append({'run': 'binding control skipped: no accepted trace to corrupt', 'ok': bool(ctx.violations)})
+    if not ctx.violations:
+      raise Machinery('no trace was accepted and no violation recorded')
+    return
   bad = copy.deepcopy(good)
   for e in bad['events']:
     if 'obs' in e:
